@@ -337,6 +337,7 @@ Record drule := mkD {
                    passed to the builder API one by one have a block each *)
   dall : bool;  (* GRANT ALL / REVOKE ALL: no operation list *)
   dscr : list N; (* what the caller wrote into ITS field slice after the declaration ([] = left alone) *)
+  dsrc : bool;   (* written as a VSQL statement (compiled by the parser), not passed to the builder API *)
   drl : rule }.
 
 (* the VSQL compiler (grantsAndRevokes): per block all GRANTs, then all REVOKEs - when the translator
@@ -363,9 +364,12 @@ Definition compiled_order : list drule -> list drule := compiled_order_gen parse
    otherwise it shares the caller's slice and shows whatever the caller wrote there later *)
 Definition eff_fields (clones : bool) (d : drule) : list N :=
   if clones || is_nil (dscr d) then rfields (drl d) else dscr d.
+(* VSQL `ALL` / `ALL(columns)` ON TABLE: the compiler writes a fixed operation list (pkg/parser/const.go) *)
+Definition vsql_all (tblops colops fields : list N) : list N := if is_nil fields then tblops else colops.
 Definition eff_rule_gen (clones : bool) (S : schema) (d : drule) : rule :=
   mkRule (if dall d
-          then match find (fmatch (rflt (drl d))) (vis_types S (dws d)) with Some t => taclops t | None => [] end
+          then if dsrc d then vsql_all parser_all_table_ops parser_all_columns_table_ops (rfields (drl d))
+               else match find (fmatch (rflt (drl d))) (vis_types S (dws d)) with Some t => taclops t | None => [] end
           else rops (drl d))
          (rallow (drl d)) (rflt (drl d)) (eff_fields clones d) (rprin (drl d)).
 Definition eff_rule : schema -> drule -> rule := eff_rule_gen acl_rule_clones_fields.
@@ -377,17 +381,20 @@ Definition uniform (S : schema) (d : drule) : bool :=
   | t0 :: ts => forallb (fun t => list_eqb N.eqb (taclops t) (taclops t0)) ts
   end.
 Definition accepted_gen (uniform_required : bool) (S : schema) (d : drule) : bool :=
-  negb (dall d) || negb uniform_required || uniform S d.
+  negb (dall d) || dsrc d || negb uniform_required || uniform S d.
 Definition accepted : schema -> drule -> bool := accepted_gen acl_all_requires_uniform_ops.
 
 (* the schema the code decides by: every workspace holds its declared rules in declaration order *)
 Definition install (S : schema) (decl : list drule) : schema :=
   mkSchema (stypes S)
     (map (fun w => mkWs (wname w) (wanc w) (map (eff_rule S) (filter (fun d => dws d =? wname w) decl))) (swss S)).
-(* the oracle reads ALL as "every operation applicable to the resource asked about" *)
+(* the oracle reads ALL as "every operation applicable to the resource asked about", ALL(columns) (VSQL
+   only) as every such operation that a column list applies to: INSERT, UPDATE, SELECT *)
 Definition spec_rules (S : schema) (decl : list drule) (w : N) (t : typ) : list rule :=
   flat_map (fun w' => map (fun d => if dall d
-                                    then mkRule (taclops t) (rallow (drl d)) (rflt (drl d)) (rfields (drl d)) (rprin (drl d))
+                                    then mkRule (if is_nil (rfields (drl d)) then taclops t
+                                                 else filter (fun o => mem o [acl_op_insert; acl_op_update; acl_op_select]) (taclops t))
+                                                (rallow (drl d)) (rflt (drl d)) (rfields (drl d)) (rprin (drl d))
                                     else drl d)
                           (filter (fun d => dws d =? w') decl)) (ws_order S w).
 
